@@ -1414,8 +1414,16 @@ def _calculate_divisions(statistics, dataset_info, npartitions):
                 if sorted_column_info["name"] in index:
                     divisions = sorted_column_info["divisions"]
                     break
+        if divisions and not _strictly_increasing(divisions[:-1]):
+            # The same index value is stored in two files, partition boundaries
+            # have to separate the index values
+            divisions = None
 
     return divisions or (None,) * (npartitions + 1)
+
+
+def _strictly_increasing(values):
+    return all(a < b for a, b in zip(values[:-1], values[1:]))
 
 
 #
@@ -1702,6 +1710,9 @@ def _divisions_from_statistics(aggregated_stats, index_name):
     if not sorted_minmax.is_monotonic_increasing:
         return tuple([None] * (len(aggregated_stats) + 1)), None
     for file_min, file_max in sorted_minmax:
+        if last_max is not None and file_min <= last_max:
+            # The same index value is stored in two files (or the ranges overlap)
+            return tuple([None] * (len(aggregated_stats) + 1)), None
         divisions.append(file_min)
         last_max = file_max
     divisions.append(last_max)
